@@ -54,9 +54,11 @@ BOUNDS = ("start problems: 2 objects of one user type, fluents b:bool, p(T):bool
           "(assignment + increase), a durative action (timed assignment + increase at end), one goal; optional constructs present before "
           "cloning in every subset used by the shard list (timed increase / timed assignment at t=5, timed goal, trajectory constraint, "
           "action costs with default, epsilon); contingent: sensing action + unknown constraint; hierarchical: task, method, initial subtask; "
-          "multi-agent: 2 agents, environment fluent, public/private fluents and goals. Histories: quick <= 2 operations out of ~45 concrete "
-          "operations (12 kinds), thorough 3; symex shards: 2 timed-effect / action-effect operations with delay (2k+1)/8, 0<=k<=20 and values in "
-          "[0,10] as solver variables")
+          "multi-agent: 2 agents, environment fluent, public/private fluents and goals. Histories: quick -- every single operation out of ~80 "
+          "concrete operations (11-12 kinds; accepted and rejected ones), every ordered pair over the lite operand sets (~50 operations), "
+          "one-sided edits of either side, one-sided edit followed by a probe operation on the untouched side and on an independently built "
+          "twin; thorough -- pairs over the full operand sets, triples over the lite sets; symex shards: 1-2 timed-effect / action-effect "
+          "operations with delay (2k+1)/8, 0<=k<=20 and values in [0,10] as solver variables")
 OUTSIDE = ("longer histories; processes/events; simulated effects; scheduling problems; removal operations (clear_*); "
            "fidelity of attributes that == ignores (epsilon, discrete_time, fluent defaults) except through independence")
 ASSUMPTIONS = ["operations are applied through the public API only; the edited action is looked up by name in the problem being edited",
@@ -904,13 +906,15 @@ def shards(tier, seed):
     # (1) single operations, full operand sets, every optional construct present before cloning one at a time for the classes whose
     #     clone() loses some of them (their defects stay confined to their own shards)
     add("problem", FULL, "both", 1, budget=bud)
-    add("problem", FULL, "one", 1, budget=bud)
+    if not quick:  # quick: the one-sided single operations are covered by the pair and probe shards below
+        add("problem", FULL, "one", 1, budget=bud)
     for cls in ("contingent", "hierarchical"):
         add(cls, ["tinc", "tassign"], "both", 1, budget=bud)
         add(cls, ["traj"], "both", 1, budget=bud)
         add(cls, ["metric"], "both", 1, budget=bud)
         add(cls, ["tgoal", "eps"], "both", 1, budget=bud)
-        add(cls, ["tgoal", "eps"], "one", 1, budget=bud)
+        if not quick:
+            add(cls, ["tgoal", "eps"], "one", 1, budget=bud)
     # (2) histories
     if quick:
         # all ordered pairs over the lite operand set, split by the kind of the first operation
@@ -958,7 +962,7 @@ MANIFEST = dict(
     technique="bounded-exhaustive histories of model-building operations applied to a problem and its clone (re-execution DFS over choice "
               "variables); symbolic execution (CrossHair/z3) for the shards whose timing delays and assigned values are solver variables",
     text="Bounded model checking of clone(): for each of the four problem classes and each listed set of constructs present before cloning, "
-         "every history of <= 2 (quick) / 3 (thorough) operations out of ~45 concrete model-building operations is applied to original and clone: "
+         "every history of <= 2 (quick) / 3 (thorough) operations out of ~80 concrete model-building operations (pairs and triples over reduced operand sets) is applied to original and clone: "
          "same acceptance (exception type), ==, hash, kind after every step; and to one side only: the other side keeps its structural "
          "fingerprint and stays == to an earlier clone of itself. In the symex shards timing delays ((2k+1)/8) and assigned values are solver "
          "variables, so coincidence with the timings/values already in the problem is decided by z3.",
